@@ -68,7 +68,9 @@ func BuildCRL(s CRLSpec) []byte {
 			ch := []*dt.Node{Integer(big.NewInt(e.Serial)), EncodeTime(e.Date, s.Form)}
 			var exts []*dt.Node
 			if e.Reason != nil {
-				exts = append(exts, MakeExt(OIDCRLReason, e.ReasonCritical, dt.Prim(0, 10, []byte{byte(*e.Reason)})))
+				en := Integer(big.NewInt(int64(*e.Reason))) // two's complement, minimal
+				en.Tag = 10
+				exts = append(exts, MakeExt(OIDCRLReason, e.ReasonCritical, en))
 			}
 			if e.Invalidity != nil {
 				exts = append(exts, MakeExt(OIDInvalidityDate, false, dt.Prim(0, 24, []byte(e.Invalidity.UTC().Format("20060102150405Z")))))
@@ -138,6 +140,9 @@ func DrawBuiltCRL(t *rapid.T) ([]byte, []string) {
 		e := CRLEntry{Serial: int64(rapid.IntRange(1, 6).Draw(t, "serial")), Date: s.ThisUpdate.Add(-time.Duration(rapid.IntRange(0, 1000).Draw(t, "ago")) * time.Hour)}
 		if rapid.IntRange(0, 3).Draw(t, "hasreason") > 0 {
 			r := rapid.IntRange(0, 12).Draw(t, "reason")
+			if rapid.IntRange(0, 9).Draw(t, "oddreason") == 0 {
+				r = rapid.SampledFrom([]int{-1, -129, 127, 128, 255, 256, 300, 65536, -32769}).Draw(t, "reasonval")
+			}
 			e.Reason = &r
 			e.ReasonCritical = rapid.IntRange(0, 4).Draw(t, "rcrit") == 0
 			ops = append(ops, fmt.Sprintf("reason=%d", r))
